@@ -3,6 +3,7 @@ package main
 import (
 	"context"
 	"fmt"
+	"io/ioutil"
 	"os"
 	"path/filepath"
 	"sort"
@@ -22,7 +23,18 @@ import (
 // ---------------------------------------------------------------- end-to-end stream
 
 type E2EOp struct {
-	K string `json:"k"` // batch | batchserve | serve | sync | drop | read | cread | selopen | selagain
+	K string `json:"k"` // batch | batchserve | serve | sync | drop | restart | describe | read | cread | selopen | selagain
+	// restart: clean shutdown and start (cindex.dat and the .tidx files are written and loaded). drop with Keep: only
+	// cindex.dat is lost, the .tidx index files stay behind (the state a crash leaves: cindex.dat exists between a clean
+	// shutdown and the next start only); the start must discard them. describe: Service.GetParitionInfo.
+	Keep bool `json:"keep,omitempty"`
+	// drop with Garble: cindex.dat is overwritten with bytes that are not JSON, the .tidx files stay (same outcome as Keep).
+	// restart with Lose: between the clean shutdown and the start the .tidx index files are damaged while cindex.dat (which
+	// refers to them) stays: "tidx" = removed, "short" = cut to half their size, "zero" = overwritten with zeros. The model
+	// has no state for an index root that points into a lost file, so the correspondence part of the case ends at this
+	// operation; the oracle goes on judging every read.
+	Garble bool   `json:"garble,omitempty"`
+	Lose   string `json:"lose,omitempty"`
 	// cread: a read through the cached cursor number Cur (created by its first cread, continued by the later ones: one
 	// JIterator and one chkSelector live across the reads). selopen: a chkSelector for [O1,O2] is created and kept;
 	// selopen and selagain ask it for the status of every chunk.
@@ -36,9 +48,12 @@ type E2EOp struct {
 	// read: write the range as a single bound without brackets is not used; both bounds optional
 }
 type E2ECase struct {
-	Stream    string  `json:"stream"`
-	ChunkRecs int     `json:"chunk_recs"` // records per chunk (0 = one chunk)
-	Ops       []E2EOp `json:"ops"`
+	Stream    string `json:"stream"`
+	ChunkRecs int    `json:"chunk_recs"` // records per chunk (0 = one chunk)
+	// FreeRb: the index rebuilder is NOT held by the harness: its workers start when a rebuild is requested and run
+	// concurrently with the reader that asked; the harness waits until the rebuilder is idle after every read
+	FreeRb bool    `json:"free_rb,omitempty"`
+	Ops    []E2EOp `json:"ops"`
 }
 
 const msgLen = 40
@@ -116,6 +131,10 @@ func genE2E(r *Rng, i int) *E2ECase {
 	ec := &E2ECase{Stream: streams[i%len(streams)]}
 	if ec.Stream == "cursor" {
 		return genE2ECursor(r)
+	}
+	if i%8 == 1 {
+		// the second mono slot: the life cycle of the index and of its rebuilder
+		return genE2ELifecycle(r, i%16 == 1)
 	}
 	ec.ChunkRecs = r.PickInt(0, 0, 700, 400, 260, 251, 250, 249, 120)
 	if ec.Stream == "spiky" {
@@ -250,6 +269,94 @@ func genE2E(r *Rng, i int) *E2ECase {
 		return ec
 	}
 	ec.Ops = append(ec.Ops, genQueries(r, all, r.Range(8, 16), ec.Stream)...)
+	return ec
+}
+
+// genE2ELifecycle: a partition in time order whose index goes through its life cycle: clean restarts (cindex.dat and the
+// .tidx files written and loaded), crashes that leave the .tidx files without cindex.dat (the start must discard them),
+// describes (Service.GetParitionInfo: forced rebuild requests for chunks without a countable index) and rebuilds.
+// free = the rebuilder is not held: its workers run when a read asks for a rebuild (stream "freerb"); then no write
+// follows an index loss before a sync or read (such a write would start a rebuild that races with the chunk writer's
+// flush), and the rebuilder is idle again before the next operation.
+func genE2ELifecycle(r *Rng, free bool) *E2ECase {
+	ec := &E2ECase{Stream: "lifecycle", FreeRb: free}
+	if free {
+		ec.Stream = "freerb"
+	}
+	ec.ChunkRecs = r.PickInt(0, 0, 700, 400, 260, 250)
+	if free {
+		// many chunks: a describe after an index loss asks for more rebuilds than the rebuilder has workers (10)
+		ec.ChunkRecs = r.PickInt(0, 260, 60, 60)
+	}
+	cur := int64(r.Range(1, 100000))
+	total := r.PickInt(300, 520, 760, 1100)
+	var all []int64
+	cutAll := func() {
+		// point queries inside every 250-record stretch: every chunk without an index is asked to be rebuilt
+		if len(all) <= 125 {
+			ec.Ops = append(ec.Ops, E2EOp{K: "read", O1: i64p(all[len(all)/2]), O2: i64p(all[len(all)/2])})
+		}
+		for p := 125; p < len(all); p += 250 {
+			ec.Ops = append(ec.Ops, E2EOp{K: "read", O1: i64p(all[p]), O2: i64p(all[p])})
+		}
+	}
+	selOpen := func() {
+		// a selector that is kept across rebuilder runs, SyncChunks and describes (a restart or an index loss ends it)
+		if !free && len(all) > 0 {
+			a := all[r.Intn(len(all))] + int64(r.Range(-1, 1))
+			ec.Ops = append(ec.Ops, E2EOp{K: "selopen", O1: i64p(a), O2: i64p(a + int64(r.PickInt(0, 1, 40, 400, 3000)))})
+		}
+	}
+	for len(all) < total {
+		n := r.PickInt(1, 10, 100, 249, 250, 251, 600)
+		tss := tsProcess(r, "mono", n, &cur)
+		ec.Ops = append(ec.Ops, E2EOp{K: "batch", Ts: tss})
+		all = append(all, tss...)
+		if len(ec.Ops) == 1 || r.Chance(1, 6) {
+			selOpen()
+		} else if !free && r.Chance(1, 3) {
+			ec.Ops = append(ec.Ops, E2EOp{K: "selagain"})
+		}
+		x := r.Intn(100)
+		switch {
+		case x < 25:
+			ec.Ops = append(ec.Ops, genQueries(r, all, r.Range(1, 2), ec.Stream)...)
+		case x < 45:
+			ec.Ops = append(ec.Ops, E2EOp{K: "restart"})
+			if r.Chance(1, 2) {
+				ec.Ops = append(ec.Ops, genQueries(r, all, 1, ec.Stream)...)
+			}
+		case x < 60:
+			switch r.Intn(3) {
+			case 0:
+				ec.Ops = append(ec.Ops, E2EOp{K: "drop"})
+			case 1:
+				ec.Ops = append(ec.Ops, E2EOp{K: "drop", Keep: true})
+			default:
+				ec.Ops = append(ec.Ops, E2EOp{K: "drop", Garble: true})
+			}
+			if r.Chance(1, 2) {
+				ec.Ops = append(ec.Ops, E2EOp{K: "sync"})
+				if r.Chance(1, 2) {
+					ec.Ops = append(ec.Ops, E2EOp{K: "describe"}, E2EOp{K: "serve"})
+				}
+			}
+			cutAll()
+			if !free && r.Chance(1, 2) {
+				selOpen()
+			}
+			if !free && r.Chance(2, 3) {
+				ec.Ops = append(ec.Ops, E2EOp{K: "serve"}, E2EOp{K: "selagain"})
+			}
+			if r.Chance(1, 3) {
+				ec.Ops = append(ec.Ops, E2EOp{K: "restart"})
+			}
+			ec.Ops = append(ec.Ops, genQueries(r, all, 2, ec.Stream)...)
+		case x < 68:
+			ec.Ops = append(ec.Ops, E2EOp{K: "describe"}, E2EOp{K: "serve"}, E2EOp{K: "selagain"})
+		}
+	}
+	ec.Ops = append(ec.Ops, genQueries(r, all, r.Range(6, 10), ec.Stream)...)
 	return ec
 }
 
@@ -408,6 +515,60 @@ func corpus() []Replay {
 		{K: "batch", Ts: rep(100, 300)}, {K: "drop", Slow: true}, {K: "batchserve", Ts: rep(200, 10)},
 		{K: "read", O1: i64p(200), O2: i64p(200)}, {K: "read", O1: i64p(150), O2: i64p(250)}, {K: "read", O1: i64p(100), O2: i64p(150)},
 		{K: "batch", Ts: rep(300, 5)}, {K: "read", O1: i64p(200), O2: i64p(300)}}}})
+	// (k) the life cycle: 520 events; clean restart (index saved and loaded); a write on the loaded index; the index files
+	// survive a "crash" without cindex.dat and must be discarded; a describe asks for the rebuild of every chunk (forced);
+	// the rebuilder serves; another restart; ranges at the old index points must still be exact.
+	{
+		ts := make([]int64, 520)
+		for i := range ts {
+			ts[i] = 5000 + 3*int64(i/2)
+		}
+		out = append(out, Replay{Kind: "e2e", E2E: &E2ECase{Stream: "lifecycle", ChunkRecs: 260, Ops: []E2EOp{
+			{K: "batch", Ts: ts[:250]}, {K: "batch", Ts: ts[250:400]}, {K: "restart"}, {K: "read", O1: i64p(ts[249]), O2: i64p(ts[251])},
+			{K: "batch", Ts: ts[400:]}, {K: "read", O1: i64p(ts[390]), O2: i64p(ts[410])},
+			{K: "drop", Keep: true}, {K: "describe"}, {K: "serve"}, {K: "read", O1: i64p(ts[100]), O2: i64p(ts[300])},
+			{K: "restart"}, {K: "read", O1: i64p(ts[249]), O2: i64p(ts[249])}, {K: "read", O2: i64p(ts[259])}, {K: "read", O1: i64p(ts[500])}}}})
+	}
+	// (m) the rebuilder running freely with more requests than workers: 13 chunks of 50 events, the index files are lost, a
+	// describe asks for the rebuild of all 13 chunks at once (10 workers start, 3 requests wait and are picked up by workers
+	// that have finished); when the rebuilder is idle every chunk has its index again and ranges are exact
+	{
+		ts := make([]int64, 650)
+		for i := range ts {
+			ts[i] = 9000 + 2*int64(i)
+		}
+		out = append(out, Replay{Kind: "e2e", E2E: &E2ECase{Stream: "freerb", ChunkRecs: 50, FreeRb: true, Ops: []E2EOp{
+			{K: "batch", Ts: ts[:300]}, {K: "batch", Ts: ts[300:]}, {K: "drop", Keep: true}, {K: "sync"}, {K: "describe"},
+			{K: "read", O1: i64p(ts[120]), O2: i64p(ts[130])}, {K: "read", O1: i64p(ts[49]), O2: i64p(ts[50])}, {K: "read", O2: i64p(ts[610])},
+			{K: "drop"}, {K: "read", O1: i64p(ts[10]), O2: i64p(ts[640])}, {K: "read", O1: i64p(ts[10]), O2: i64p(ts[640])}}}})
+	}
+	// (n) a RANGE query over two partitions (cursor.newCursor mixes one range iterator per partition)
+	{
+		var a, b []int64
+		for i := 0; i < 300; i++ {
+			a = append(a, 100+2*int64(i))
+			b = append(b, 101+3*int64(i))
+		}
+		out = append(out, Replay{Kind: "e2e", E2E: &E2ECase{Stream: "mono", Ops: []E2EOp{
+			{K: "batch", Ts: a}, {K: "aux", Ts: b}, {K: "read2", O1: i64p(200), O2: i64p(400)}, {K: "read2", O1: i64p(598), O2: i64p(598)},
+			{K: "read2", O1: i64p(0), O2: i64p(5000)}, {K: "read2", O1: i64p(700), O2: i64p(2000)}, {K: "read", O1: i64p(200), O2: i64p(400)}}}})
+	}
+	// (l) damaged index files at load (oracle only after the damage): 600 events in two chunks, clean shutdown, the .tidx
+	// files are removed / cut short / zeroed while cindex.dat still refers to their trees; every range must stay exact,
+	// before and after the next write, and after the rebuilder has run.
+	for _, dmg := range []string{"tidx", "short", "zero"} {
+		ts := make([]int64, 640)
+		for i := range ts {
+			ts[i] = 7000 + int64(i)
+		}
+		out = append(out, Replay{Kind: "e2e", E2E: &E2ECase{Stream: "lifecycle", ChunkRecs: 300, Ops: []E2EOp{
+			{K: "batch", Ts: ts[:260]}, {K: "batch", Ts: ts[260:600]}, {K: "read", O1: i64p(ts[250]), O2: i64p(ts[350])},
+			{K: "restart", Lose: dmg},
+			{K: "read", O1: i64p(ts[250]), O2: i64p(ts[350])}, {K: "read", O1: i64p(ts[10]), O2: i64p(ts[20])}, {K: "read", O2: i64p(ts[300])},
+			{K: "batch", Ts: ts[600:620]}, {K: "read", O1: i64p(ts[590]), O2: i64p(ts[610])}, {K: "read", O1: i64p(ts[100]), O2: i64p(ts[500])},
+			{K: "batch", Ts: ts[620:]}, {K: "serve"}, {K: "read", O1: i64p(ts[250]), O2: i64p(ts[350])}, {K: "read", O1: i64p(ts[600])},
+			{K: "read", O1: i64p(ts[299]), O2: i64p(ts[300])}}}})
+	}
 	// (j) a selector that lives across reads (a cached RANGE cursor that is continued): events ts 1..10, a kept selector
 	// and a cached cursor for RANGE ["100":"200"] see the chunk while it is wholly older than the range (window
 	// [MaxUint32..MaxUint32]); then ts 50..150 and 151..300 are appended to the SAME chunk: the window must be recomputed,
@@ -429,17 +590,20 @@ func corpus() []Replay {
 }
 
 type e2eRun struct {
-	dir   string
-	srv   *Server
-	src   string
-	ctx   context.Context
-	cids  []chunk.Id // chunk ids in journal order; ordinal = index+1
-	cnts  []int      // records per chunk
-	all   []int64    // timestamps in stored order
-	total int
-	slow  bool // the chunk writers flush on chunk.Sync only (see E2EOp.Slow)
-	sel   *partition.VC02Selector
-	curs  map[int]*e2eCursor
+	dir      string
+	srv      *Server
+	src      string
+	ctx      context.Context
+	cids     []chunk.Id // chunk ids in journal order; ordinal = index+1
+	cnts     []int      // records per chunk
+	all      []int64    // timestamps in stored order
+	total    int
+	slow     bool // the chunk writers flush on chunk.Sync only (see E2EOp.Slow)
+	free     bool // the rebuilder is not held (E2ECase.FreeRb)
+	sel      *partition.VC02Selector
+	selRange [2]int64
+	aux      []int64 // timestamps written to the second partition c02=aux (op aux)
+	curs     map[int]*e2eCursor
 }
 
 // e2eCursor is a cached cursor of the server that the harness continues: the request for the next page and what
@@ -463,7 +627,9 @@ func (e *e2eRun) start(chunkRecs int) error {
 		return err
 	}
 	e.srv = srv
-	srv.Partitions.VC02HoldRebuilder()
+	if !e.free {
+		srv.Partitions.VC02HoldRebuilder()
+	}
 	return nil
 }
 
@@ -598,6 +764,9 @@ func (e *e2eRun) view() (string, string, int, error) {
 	for _, c := range e.srv.Partitions.VC02Queued() {
 		o := e.ordinal(c)
 		if o < 0 {
+			if len(e.aux) > 0 {
+				continue // a chunk of the second partition
+			}
 			return "", "", 0, fmt.Errorf("rebuild queued for an unknown chunk %v", c)
 		}
 		q = append(q, o)
@@ -647,7 +816,7 @@ func optZ(p *int64) string {
 
 func runE2E(rp Replay) (*Case, error) {
 	ec := rp.E2E
-	e := &e2eRun{dir: TempDir("c02e2e"), ctx: context.Background()}
+	e := &e2eRun{dir: TempDir("c02e2e"), ctx: context.Background(), free: ec.FreeRb}
 	defer func() {
 		if e.srv != nil {
 			e.srv.Stop()
@@ -661,7 +830,8 @@ func runE2E(rp Replay) (*Case, error) {
 	var viol *Violation
 	// the first failure of the case is reported, except that one of the two recorded classes gives way to any other
 	// failure later in the same case
-	recorded := map[string]bool{"range-incomplete-non-monotone-timestamps": true, "range-incomplete-write-after-index-loss-before-rebuild": true}
+	recorded := map[string]bool{"range-incomplete-non-monotone-timestamps": true, "range-incomplete-write-after-index-loss-before-rebuild": true,
+		"range-incomplete-stale-index-root-after-index-file-loss": true}
 	fail := func(class, detail string) {
 		if viol == nil || (recorded[viol.Class] && !recorded[class]) {
 			viol = &Violation{Class: class, Detail: detail}
@@ -674,6 +844,9 @@ func runE2E(rp Replay) (*Case, error) {
 	zeroFirst := false
 	negRebuild := false
 	pendingDropWrite := false
+	kStopped := false               // the correspondence part of the case has ended (E2EOp.Lose)
+	staleRoots := false             // the index files were cut short or zeroed while cindex.dat kept its roots into them
+	pendingChunks := map[int]bool{} // the chunks (ordinals) written to between an index loss and the next sync
 	syncedSinceDrop := true
 	// chunks (by ordinal) whose index was built by the rebuilder scanning the chunk and that were not written to since
 	rebuiltClean := map[int]bool{}
@@ -728,12 +901,15 @@ func runE2E(rp Replay) (*Case, error) {
 					zeroFirst = true
 				}
 			}
-			if !syncedSinceDrop {
-				pendingDropWrite = true
-			}
 			segs, seen, served, err := e.writeBatch(op.Ts, serveFirst)
 			if err != nil {
 				return nil, err
+			}
+			if !syncedSinceDrop {
+				pendingDropWrite = true
+				for _, sg := range segs {
+					pendingChunks[sg[0]] = true
+				}
 			}
 			for _, sg := range segs {
 				delete(rebuiltClean, sg[0])
@@ -778,11 +954,12 @@ func runE2E(rp Replay) (*Case, error) {
 						}
 					}
 				}
-				if len(served) > 0 {
-					// the transient of the recorded finding (hull = the first batch after the index loss) ends when the
-					// rebuilder has served the chunk
-					pendingDropWrite = false
+				// the transient of the recorded finding (hull = the first batch after the index loss) ends when the
+				// rebuilder has served the chunk
+				for _, c := range served {
+					delete(pendingChunks, int(e.ordinal(c)))
 				}
+				pendingDropWrite = len(pendingChunks) > 0
 			}
 			nbatches++
 		case "serve":
@@ -820,7 +997,10 @@ func runE2E(rp Replay) (*Case, error) {
 						}
 					}
 				}
-				pendingDropWrite = false
+				for _, c := range served {
+					delete(pendingChunks, int(e.ordinal(c)))
+				}
+				pendingDropWrite = len(pendingChunks) > 0
 			}
 			gop = "EServe"
 		case "sync":
@@ -840,7 +1020,17 @@ func runE2E(rp Replay) (*Case, error) {
 			}
 			e.srv.Stop()
 			e.srv = nil
-			if err := os.RemoveAll(filepath.Join(e.dir, "cindex")); err != nil {
+			if op.Garble {
+				if err := ioutil.WriteFile(filepath.Join(e.dir, "cindex", "cindex.dat"), []byte("{\"p\": [ {\"Id\": 12, \"MinTs\""), 0640); err != nil {
+					return nil, err
+				}
+				tags = append(tags, "e2e-cindex-dat-garbled")
+			} else if op.Keep {
+				if err := os.Remove(filepath.Join(e.dir, "cindex", "cindex.dat")); err != nil {
+					return nil, fmt.Errorf("the clean shutdown has not written cindex.dat: %v", err)
+				}
+				tags = append(tags, "e2e-crash-keeps-tidx")
+			} else if err := os.RemoveAll(filepath.Join(e.dir, "cindex")); err != nil {
 				return nil, err
 			}
 			e.slow = op.Slow
@@ -851,7 +1041,67 @@ func runE2E(rp Replay) (*Case, error) {
 			syncedSinceDrop = false
 			rebuiltClean = map[int]bool{}
 			servedUnflushed = map[int]bool{}
+			pendingChunks, pendingDropWrite = map[int]bool{}, false
 			gop = "EDrop"
+		case "restart":
+			if e.src == "" {
+				continue
+			}
+			e.srv.Stop()
+			e.srv = nil
+			e.slow = false
+			e.sel, e.curs = nil, nil
+			if op.Lose != "" {
+				fis, err := ioutil.ReadDir(filepath.Join(e.dir, "cindex"))
+				if err != nil {
+					return nil, err
+				}
+				for _, fi := range fis {
+					fn := filepath.Join(e.dir, "cindex", fi.Name())
+					if filepath.Ext(fn) != ".tidx" {
+						continue
+					}
+					switch op.Lose {
+					case "tidx":
+						err = os.Remove(fn)
+					case "short":
+						err = os.Truncate(fn, fi.Size()/2)
+					case "zero":
+						err = ioutil.WriteFile(fn, make([]byte, fi.Size()), 0640)
+					default:
+						err = fmt.Errorf("unknown damage %q", op.Lose)
+					}
+					if err != nil {
+						return nil, err
+					}
+				}
+				kStopped = true
+				staleRoots = staleRoots || op.Lose == "short" || op.Lose == "zero"
+				rebuiltClean = map[int]bool{}
+				tags = append(tags, "e2e-index-files-damaged:"+op.Lose)
+			}
+			if err := e.start(ec.ChunkRecs); err != nil {
+				return nil, fmt.Errorf("restart: %v", err)
+			}
+			tags = append(tags, "e2e-clean-restart")
+			gop = "ERestart"
+		case "describe":
+			if e.src == "" {
+				continue
+			}
+			if _, err := e.srv.Partitions.GetParitionInfo(e2eTags); err != nil {
+				return nil, fmt.Errorf("GetParitionInfo: %v", err)
+			}
+			syncedSinceDrop = true
+			tags = append(tags, "e2e-describe")
+			gop = "EDescribe"
+			if e.free {
+				if !WaitFor(30*time.Second, func() bool { return len(e.srv.Partitions.VC02Queued()) == 0 }) {
+					return nil, fmt.Errorf("the index rebuilder did not become idle within 30s")
+				}
+				gop = "EDescribeServed"
+				pendingChunks, pendingDropWrite = map[int]bool{}, false
+			}
 		case "read":
 			if e.src == "" {
 				continue
@@ -895,7 +1145,7 @@ func runE2E(rp Replay) (*Case, error) {
 			if err != nil {
 				return nil, err
 			}
-			if o1 != nil {
+			if o1 != nil && !e.free {
 				ws, err := partition.VC02Windows(e.ctx, model.TimeRange{MinTs: t1, MaxTs: t2}, j, e.srv.Partitions.TsIndexer, e.srv.Partitions.GetTmIndexRebuilder())
 				if err != nil {
 					return nil, err
@@ -963,6 +1213,35 @@ func runE2E(rp Replay) (*Case, error) {
 					missing = append(missing, ev)
 				}
 			}
+			// the same range read from its END (POSITION tail, negative offset: the selector's backward walk
+			// getPosBackward / checkPosOrReduce over the same windows): the last k in-range events, in stored order. Only
+			// the oracle judges it (backward iteration is modelled by C16); on a partition in time order whose forward read
+			// was complete.
+			if len(missing) == 0 && unsound == "" && sortedAll && !pendingDropWrite && !staleRoots && len(want) > 0 && nreads%3 == 0 {
+				k := len(want)
+				if k > 7 {
+					k = 7
+				}
+				res, err := e.srv.Querier.Query(e.ctx, &api.QueryRequest{Query: q, Pos: "tail", Offset: -k, Limit: k})
+				if res == nil {
+					return nil, fmt.Errorf("query %q from the tail failed: %v", q, err)
+				}
+				okTail := len(res.Events) == k
+				for i := 0; okTail && i < k; i++ {
+					sq, err := seqOf(res.Events[i].Message)
+					okTail = err == nil && sq == want[len(want)-k+i].seq
+				}
+				tags = append(tags, "e2e-range-from-tail")
+				if !okTail {
+					var gotSeq []int
+					for _, le := range res.Events {
+						sq, _ := seqOf(le.Message)
+						gotSeq = append(gotSeq, sq)
+					}
+					fail("range-tail", fmt.Sprintf("%s POSITION tail OFFSET -%d LIMIT %d returned the events seq %v, the last %d in-range events are seq %d..%d",
+						q, k, k, gotSeq, k, want[len(want)-k].seq, want[len(want)-1].seq))
+				}
+			}
 			if len(missing) > 0 {
 				// With an open lower bound the negative events lost are explained by the open-lower-bound defect;
 				// what else is lost is classified with respect to the bound the server substitutes (0).
@@ -1028,6 +1307,10 @@ func runE2E(rp Replay) (*Case, error) {
 				}
 				cls := "range-incomplete"
 				switch {
+				case staleRoots:
+					// recorded finding: cindex.dat's index roots are trusted although the index file they point into was
+					// re-created empty at the start (the blocks of the old trees are free and get allocated again)
+					cls = "range-incomplete-stale-index-root-after-index-file-loss"
 				case !sortedAll:
 					cls = "range-incomplete-non-monotone-timestamps"
 				case pendingDropWrite:
@@ -1099,6 +1382,72 @@ func runE2E(rp Replay) (*Case, error) {
 			}
 			gEvents = GList(runs)
 			gop = GApp("ERead", optZ(o1), optZ(o2))
+			if e.free {
+				// the rebuilder's workers were started by this read's requests; the state is observed when it is idle again
+				if !WaitFor(30*time.Second, func() bool { return len(e.srv.Partitions.VC02Queued()) == 0 }) {
+					return nil, fmt.Errorf("the index rebuilder did not become idle within 30s")
+				}
+				gop = GApp("EReadServed", optZ(o1), optZ(o2))
+				tags = append(tags, "e2e-free-rebuilder")
+				pendingChunks, pendingDropWrite = map[int]bool{}, false
+			}
+		case "aux":
+			// events for a second partition; what a RANGE query over both partitions delivers is judged by the oracle (read2)
+			it := &sliceIt{}
+			for k, ts := range op.Ts {
+				it.evs = append(it.evs, model.LogEvent{Timestamp: ts, Msg: []byte(msgOf(1000000 + len(e.aux) + k))})
+			}
+			if err := e.srv.Partitions.Write(e.ctx, "c02=aux", it, true); err != nil {
+				return nil, fmt.Errorf("write: %v", err)
+			}
+			e.aux = append(e.aux, op.Ts...)
+			if !WaitFor(30*time.Second, func() bool {
+				got, err := e.query(`SELECT FROM c02="aux"`)
+				return err == nil && len(got) == len(e.aux)
+			}) {
+				return nil, fmt.Errorf("the events of the second partition did not become readable within 30s")
+			}
+			continue
+		case "read2":
+			if e.src == "" || op.O1 == nil || op.O2 == nil {
+				continue
+			}
+			q := fmt.Sprintf(`SELECT FROM c02="e2e" OR c02="aux" RANGE ["%d":"%d"]`, *op.O1, *op.O2)
+			got, err := e.query(q)
+			if err != nil {
+				return nil, fmt.Errorf("query %q: %v", q, err)
+			}
+			syncedSinceDrop = true
+			tags = append(tags, "e2e-two-partitions")
+			// oracle: the merged RANGE read has exactly the in-range events of both partitions, in time order
+			gotSet := map[int]int{}
+			for k, ev := range got {
+				gotSet[ev.seq]++
+				if k > 0 && got[k-1].ts > ev.ts {
+					fail("range-two-partitions", fmt.Sprintf("%s: not in time order at result %d (ts %d after %d)", q, k, ev.ts, got[k-1].ts))
+				}
+			}
+			nwant := 0
+			check := func(seq int, ts int64) {
+				if ts >= *op.O1 && ts <= *op.O2 {
+					nwant++
+					if gotSet[seq] != 1 {
+						fail("range-two-partitions", fmt.Sprintf("%s: the in-range event seq %d ts %d was delivered %d times", q, seq, ts, gotSet[seq]))
+					}
+				}
+			}
+			if sortedAll && !pendingDropWrite && !staleRoots {
+				for k, ts := range e.all {
+					check(k, ts)
+				}
+				for k, ts := range e.aux {
+					check(1000000+k, ts)
+				}
+				if nwant != len(got) {
+					fail("range-two-partitions", fmt.Sprintf("%s returned %d events, %d are in range", q, len(got), nwant))
+				}
+			}
+			gop = GApp("ECRead", optZ(op.O1), optZ(op.O2))
 		case "selopen", "selagain":
 			if e.src == "" || (op.K == "selagain" && e.sel == nil) || (op.K == "selopen" && (op.O1 == nil || op.O2 == nil)) {
 				continue
@@ -1109,6 +1458,7 @@ func runE2E(rp Replay) (*Case, error) {
 					return nil, err
 				}
 				e.sel = partition.VC02NewSelector(model.TimeRange{MinTs: *op.O1, MaxTs: *op.O2}, j, e.srv.Partitions.TsIndexer, e.srv.Partitions.GetTmIndexRebuilder())
+				e.selRange = [2]int64{*op.O1, *op.O2}
 				gop = GApp("ESelOpen", GZ(*op.O1), GZ(*op.O2))
 			} else {
 				gop = "ESelAgain"
@@ -1124,6 +1474,23 @@ func runE2E(rp Replay) (*Case, error) {
 			gWindows = GSome(GList(gw))
 			syncedSinceDrop = true
 			tags = append(tags, "e2e-kept-selector")
+			// oracle (C02_continued_selector_complete): on a partition in time order, outside the window of the recorded
+			// finding (f), the window the kept selector answers with contains every position of the chunk whose timestamp
+			// is in its range - also when the index was rebuilt, synchronised or reloaded since the window was computed
+			if sortedAll && !pendingDropWrite && !staleRoots && len(ws) == len(e.cids) {
+				for k, w := range ws {
+					for i, ts := range chunkData(k + 1) {
+						if ts < e.selRange[0] || ts > e.selRange[1] {
+							continue
+						}
+						if uint32(i) < w.MinPos || uint32(i) > w.MaxPos || uint32(i) >= w.Count {
+							fail("kept-selector-window-incomplete", fmt.Sprintf("a selector for [%d,%d] kept across %d operations answers [%d..%d] of %d for chunk %d, whose position %d has the timestamp %d",
+								e.selRange[0], e.selRange[1], len(hist), w.MinPos, w.MaxPos, w.Count, k+1, i, ts))
+							break
+						}
+					}
+				}
+			}
 		case "cread":
 			if e.src == "" || op.Cur <= 0 {
 				continue
@@ -1205,11 +1572,16 @@ func runE2E(rp Replay) (*Case, error) {
 		if pts > maxPts {
 			maxPts = pts
 		}
-		hist = append(hist, GPair(gop, fmt.Sprintf("(mkeobs %s %s %s %s)", views, queue, gEvents, gWindows)))
+		if !kStopped {
+			hist = append(hist, GPair(gop, fmt.Sprintf("(mkeobs %s %s %s %s)", views, queue, gEvents, gWindows)))
+		}
 	}
 	tags = append(tags, "e2e:"+ec.Stream, fmt.Sprintf("e2e-chunks:%d", len(e.cids)), fmt.Sprintf("e2e-sorted:%v", sortedAll))
 	if idxViol != nil && (viol == nil || recorded[viol.Class]) {
 		viol = idxViol
+		if staleRoots {
+			viol.Class = "range-incomplete-stale-index-root-after-index-file-loss"
+		}
 	}
 	return &Case{
 		Coq:        GApp("KE2E", GList(hist)),
